@@ -44,3 +44,80 @@ package vgirpc
 //@       (typeof(err) == *externalCapError ==> extra.ExceptionType == "RuntimeError")
 //@   at call json.Marshal assert [other] !isFrameworkErr(err) ==> extra.ExceptionType == "RuntimeError"
 //@   at call json.Marshal assert [nodebug] !debug ==> extra.Traceback == "" && len(extra.Frames) == 0
+
+// The recovering literals around handler, Exchange and Produce calls: a panic, whatever its
+// value, is turned into an RpcError whose Type is "RuntimeError" (never the panic value's Go
+// type) — or into an error value buildErrorExtra names "RuntimeError" anyway — and that error is
+// what the enclosing dispatcher then reports.
+//
+//@ func (*Server).serveUnary$1$1
+//@   property C05
+//@   at store RpcError.Type assert [hint_panicname] value == "RuntimeError"
+//@   ensures [local_panicerr] rv != nil ==> callErr != nil && ((typeof(callErr) == *RpcError && as(callErr, "*RpcError").Type == "RuntimeError") || !isFrameworkErr(callErr))
+//@ func (*HttpServer).handleUnary$2$1
+//@   property C05
+//@   at store RpcError.Type assert [hint_panicname] value == "RuntimeError"
+//@   ensures [local_panicerr] rv != nil ==> callErr != nil && ((typeof(callErr) == *RpcError && as(callErr, "*RpcError").Type == "RuntimeError") || !isFrameworkErr(callErr))
+//@ func (*HttpServer).handleStreamInit$2$1
+//@   property C05
+//@   at store RpcError.Type assert [hint_panicname] value == "RuntimeError"
+//@   ensures [local_panicerr] rv != nil ==> handlerErr != nil && ((typeof(handlerErr) == *RpcError && as(handlerErr, "*RpcError").Type == "RuntimeError") || !isFrameworkErr(handlerErr))
+//@ func (*HttpServer).handleExchangeCall$1$1
+//@   property C05
+//@   at store RpcError.Type assert [hint_panicname] value == "RuntimeError"
+//@   ensures [local_panicerr] rv != nil ==> exchangeErr != nil && ((typeof(exchangeErr) == *RpcError && as(exchangeErr, "*RpcError").Type == "RuntimeError") || !isFrameworkErr(exchangeErr))
+//@ func (*HttpServer).runProduceLoop$1$1
+//@   property C05
+//@   at store RpcError.Type assert [hint_panicname] value == "RuntimeError"
+//@   ensures [local_panicerr] rv != nil ==> produceErr != nil && ((typeof(produceErr) == *RpcError && as(produceErr, "*RpcError").Type == "RuntimeError") || !isFrameworkErr(produceErr))
+//@ func (*Server).serveStream$1$1
+//@   property C05
+//@   at store RpcError.Type assert [hint_panicname] value == "RuntimeError"
+//@   ensures [local_panicerr] rv != nil ==> callErr != nil && ((typeof(callErr) == *RpcError && as(callErr, "*RpcError").Type == "RuntimeError") || !isFrameworkErr(callErr))
+//@ func (*Server).serveStream$4$1
+//@   property C05
+//@   at store RpcError.Type assert [hint_panicname] value == "RuntimeError"
+//@   ensures [local_panicerr] rv != nil ==> streamErr != nil && ((typeof(streamErr) == *RpcError && as(streamErr, "*RpcError").Type == "RuntimeError") || !isFrameworkErr(streamErr))
+
+// The error_kind carried alongside: the kind an error advertises is its own Kind field for an
+// RpcError and the fixed wire tag for each typed framework error. The clauses are a contract on
+// the interface method; every implementation in the package is checked against them
+// (obligations <impl>/post#iface_...), so writeErrorBatch may rely on them for whatever dynamic
+// type it is handed. writeErrorBatch appends the key exactly when the kind is non-empty.
+//
+//@ func "errorKindCarrier.ErrorKind" (e)
+//@   property C05
+//@   modifies nothing
+//@   ensures [rpcerror] typeof(e) == *RpcError ==> result == as(e, "*RpcError").Kind
+//@   ensures [version] typeof(e) == *ProtocolVersionError ==> result == "protocol_version_mismatch"
+//@   ensures [sessionlost] typeof(e) == *SessionLostError ==> result == "session_lost"
+//@   ensures [draining] typeof(e) == *ServerDrainingError ==> result == "server_draining"
+//@   ensures [notimplemented] typeof(e) == *MethodNotImplementedError ==> result == "MethodNotImplementedError"
+//@ func writeErrorBatch
+//@   property C05
+//@   at call buildErrorExtra assert [sameerror] arg0 == err && arg1 == debug
+//@   at call arrow.NewMetadata assert [extra] len(arg0) == len(arg1) && len(arg0) >= 3 && arg0[2] == MetaLogExtra && arg1[2] == extraJSON
+//@   at call arrow.NewMetadata assert [kind_rpcerror] typeof(err) == *RpcError && as(err, "*RpcError").Kind != "" ==> arg0[len(arg0)-1] == MetaErrorKind && arg1[len(arg1)-1] == as(err, "*RpcError").Kind
+//@   at call arrow.NewMetadata assert [kind_version] typeof(err) == *ProtocolVersionError ==> arg0[len(arg0)-1] == MetaErrorKind && arg1[len(arg1)-1] == "protocol_version_mismatch"
+//@   at call arrow.NewMetadata assert [kind_absent] typeof(err) == *RpcError && as(err, "*RpcError").Kind == "" ==> (forall k int :: 0 <= k && k < len(arg0) ==> arg0[k] != MetaErrorKind)
+// (the implementations' own contracts, for callers that reach them statically)
+//@ func (*RpcError).ErrorKind
+//@   property C05
+//@   modifies nothing
+//@   ensures result == e.Kind
+//@ func (*ProtocolVersionError).ErrorKind
+//@   property C05
+//@   modifies nothing
+//@   ensures result == "protocol_version_mismatch"
+//@ func (*SessionLostError).ErrorKind
+//@   property C05
+//@   modifies nothing
+//@   ensures result == "session_lost"
+//@ func (*ServerDrainingError).ErrorKind
+//@   property C05
+//@   modifies nothing
+//@   ensures result == "server_draining"
+//@ func (*MethodNotImplementedError).ErrorKind
+//@   property C05
+//@   modifies nothing
+//@   ensures result == "MethodNotImplementedError"
